@@ -63,8 +63,8 @@ def descLoop (img : Img) (off blen : Nat) (fuel len : Nat) : Out Nat :=
 
 -- src: imports.rs:Imports::try_from  (the result is `Imports::image()`: `&[IMAGE_IMPORT_DESCRIPTOR]`)
 def tryFrom (v : View) : Out Ref :=
-  match v.dataDir dirImport with                                     -- `.get(IMAGE_DIRECTORY_ENTRY_IMPORT).ok_or(Bounds)?`
-  | none => .err .bounds
+  match v.dataDir dirImport with                                     -- `.get(IMAGE_DIRECTORY_ENTRY_IMPORT).ok_or(Null)?`
+  | none => .err .null
   | some (rva, _) => do
     let bytes ← v.at (.rva rva) 0 descAlign                          -- `self.slice(rva, 0, align)?`
     let n ← descLoop v.img bytes.off bytes.len (bytes.len + 2) 0
@@ -107,8 +107,8 @@ def int (v : View) (d : Ref) : Out (List (Out Import)) := do
 
 -- src: imports.rs:IAT::try_from (the result is `IAT::image()`: `&[Va]`)
 def iatTryFrom (v : View) : Out Ref :=
-  match v.dataDir dirIAT with                                        -- `.get(IMAGE_DIRECTORY_ENTRY_IAT).ok_or(Bounds)?`
-  | none => .err .bounds
+  match v.dataDir dirIAT with                                        -- `.get(IMAGE_DIRECTORY_ENTRY_IAT).ok_or(Null)?`
+  | none => .err .null
   | some (rva, size) =>
     -- "Ignore datadir.Size not being a multiple of sizeof(Va)": `Size as usize / size_of::<Va>()`
     v.dervaSlice (.rva rva) (vaSize v.fmt) (vaSize v.fmt) (size / vaSize v.fmt)
